@@ -226,41 +226,55 @@ def _try(f, n, env):
         return None
 
 
+def _is_signal(f, st):
+    """if-statement whose then-branch is 'return <negative literal>' or a throw"""
+    b = strip(f.nodes[st["then"]])
+    if b["k"] == "CompoundStmt" and len(kids(b)) == 1:
+        b = strip(kids(b)[0])
+    if b["k"] == "ReturnStmt" and kids(b):
+        v = strip(kids(b)[0])
+        if v["k"] == "UnaryOperator" and v["op"] == "-":
+            return "returns " + render(v)
+        return None
+    if any(x["k"] == "CXXThrowExpr" for x in walk(b)) and b["k"] in ("CXXThrowExpr", "ExprWithCleanups"):
+        return "throws"
+    return None
+
+
 def _walk_entry(f, env):
-    """walks the top-level statements with constants; returns ('signal', text) | ('passes', node) | ('unknown', node)"""
-    for st in kids(f.body):
+    """constant propagation through the top-level statements up to the last entry guard (an if whose then-branch is the
+    error signal). ('signal', text) if a guard fires, ('passes', node) if every guard is definitely false, else ('unknown', node)"""
+    top = kids(f.body)
+    guards = [i for i, st in enumerate(top) if st["k"] == "IfStmt" and _is_signal(f, st)]
+    if not guards:
+        return ("unknown", f.body)
+    undecided = None
+    for i, st in enumerate(top[:guards[-1] + 1]):
         k = st["k"]
         if k == "DeclStmt":
             for d in st["decls"]:
                 env[d["id"]] = _try(f, d["init"], env) if d.get("init") is not None else None
-        elif k == "IfStmt":
-            c = _try(f, f.nodes[st["cond"]], env)
-            if c is None:
-                return ("unknown", st)
-            br = f.nodes[st["then"]] if c else (f.nodes[st["else"]] if "else" in st else None)
-            if br is None:
-                continue
-            b = strip(br)
-            if b["k"] == "CompoundStmt" and len(kids(b)) == 1:
-                b = strip(kids(b)[0])
-            if b["k"] == "ReturnStmt":
-                v = _try(f, kids(b)[0], env)
-                return ("signal", "returns %s" % (v if v is not None else render(kids(b)[0])))
-            if b["k"] in ("CXXThrowExpr", "ExprWithCleanups") and any(x["k"] == "CXXThrowExpr" for x in walk(b)):
-                return ("signal", "throws")
-            return ("passes", st)
         elif k == "BinaryOperator" and st["op"] == "=":
             l = strip(kids(st)[0])
             if l["k"] == "DeclRefExpr":
                 env[l["decl"]["id"]] = _try(f, kids(st)[1], env)
-        elif k in ("ReturnStmt",):
-            return ("passes", st)
-        else:
-            # assignment chains 'a = b = 0' and other simple statements: keep walking only if they are assignments
-            if k in ("ExprWithCleanups", "CompoundAssignOperator"):
-                continue
-            return ("passes", st)
-    return ("passes", f.body)
+        elif k == "IfStmt" and i in guards:
+            c = _try(f, f.nodes[st["cond"]], env)
+            if c is True:
+                return ("signal", _is_signal(f, st))
+            if c is None:
+                undecided = st
+        elif k == "IfStmt":
+            c = _try(f, f.nodes[st["cond"]], env)
+            if c is None:
+                undecided = undecided or st
+            elif c:
+                b = strip(f.nodes[st["then"]])
+                if any(x["k"] == "ReturnStmt" for x in walk(b)):
+                    return ("passes", st)      # an ordinary early return (e.g. 'if (x == 0) return 0')
+    if undecided is not None:
+        return ("unknown", undecided)
+    return ("passes", top[guards[-1]])
 
 
 # out-of-domain witnesses per function (parameter name -> constants); other parameters get an in-domain value
